@@ -15,10 +15,11 @@ MANIFEST = {
             'In the first round the k-th execution has index k, a SUCCESS/ERROR task has exactly one accepted '
             'execution per index and nothing RUNNING, its result is sorted by index whatever the completion order, the '
             'final state follows the rule (CANCELLED over ERROR over SUCCESS), an empty list succeeds in the start '
-            'transaction. Three full statements are FALSE of the code and kept as _full_fails with witnesses replayed '
-            'on the real engine: a CANCELLED item completes the task while others run; rerun(reset=false) re-executes '
-            'succeeded items after the last failed one; a rerun/retry round under a concurrency limit starts an index '
-            'twice (and may drop the last item).',
+            'transaction. For ALL histories (reruns with and without reset, retries) no index has two accepted-or-RUNNING '
+            'executions (index_started_once) and rerun(reset=false) starts only items without an accepted SUCCESS '
+            '(rerun_only_failed) - both true since repository fix 494951d1, their former counter-witnesses are '
+            'regressions. One full statement is FALSE of the code and kept as _full_fails with a witness replayed on the '
+            'real engine: a CANCELLED item completes the task while others run or were never started.',
     'note': 'Engine-level: one transaction = one step (in-process tx_lock atomicity); multi-process interleavings '
             'inside on_action_complete are serialised by the named lock and are not exhibited. Sub-workflow items are '
             'not generated (actions only). Rerun is modelled for ERROR tasks (the REST API refuses others).',
@@ -44,16 +45,12 @@ R = lambda p, o: {'op': 'result', 'pos': p, 'outcome': o}
 H = {'op': 'handled'}
 S = {'op': 'start'}
 WITNESSES = [
-    {'theorem': 'index_started_once_full_fails', 'n': 3, 'conc': 2, 'kind': 'rerun-or-retry-round-starts-index-twice',
-     'ops': [S, R(0, 'ERROR'), R(1, 'SUCCESS'), H, H, R(2, 'SUCCESS'), H, {'op': 'rerun', 'reset': True},
-             R(3, 'SUCCESS'), H]},
-    {'theorem': 'rerun_only_failed_full_fails', 'n': 3, 'conc': None,
-     'kind': 'rerun-no-reset-reexecutes-succeeded-items',
-     'ops': [S, R(0, 'ERROR'), R(1, 'SUCCESS'), R(2, 'SUCCESS'), H, {'op': 'rerun', 'reset': False}]},
     {'theorem': 'completes_iff_all_done_full_fails', 'n': 2, 'conc': None,
      'kind': 'cancelled-item-completes-task-before-all-items',
      'ops': [S, R(0, 'CANCELLED'), H]},
 ]
+# former counter-witnesses of index_started_once / rerun_only_failed (fixed by /repo 494951d1): now
+# regressions in corpus/C07 (k1_*, k2_*) that must run without any monitor hit or disagreement
 
 
 def witness_case(drv, w):
